@@ -57,6 +57,8 @@ func ruleC11(w *World) {
 		w.undecided("C11.R1", "anchor:Sign/Verify", token.NoPos, "unresolved anchor: ECDSA Sign/Verify")
 		return
 	}
+	w.floor("C11.R5", 1) // sites merge when the key objects are built by one constructor
+	w.ruleCurveObject("C11.R5")
 	// R1: nil hasher and short hasher refused before ComputeHash
 	for _, fn := range []*ssa.Function{sign, verify} {
 		h := P(fn, len(fn.Params)-1)
@@ -107,6 +109,9 @@ func ruleC11(w *World) {
 	} else {
 		w.undecided("C11.R1", "anchor:bitsToBytes", token.NoPos, "unresolved anchor bitsToBytes")
 	}
+	// R4: a signature handed to the caller is the caller's own value (not a buffer kept in the key object)
+	w.floor("C11.R4", 1)
+	w.ruleFreshResult("C11.R4", sign, 0, "signature")
 	// R2: verdict provenance — entry-relative: wherever the library call sits below Verify
 	w.ruleC11Verdict(verify)
 	// R3: format check
@@ -264,12 +269,54 @@ func ruleC12(w *World) {
 			if !good {
 				// BLS: secret = make(len(seed)+1) with copy(secret, seed)
 				if ms, ok := sliceBase(secret).(*ssa.MakeSlice); ok && render(ms.Len) == fmt.Sprintf("(len(%s) + 1)", seed) {
-					for _, ref := range *ms.Referrers() {
+					isCopy := func(ref ssa.Instruction) bool {
 						if cc, ok := ref.(*ssa.Call); ok {
 							if b, ok := cc.Call.Value.(*ssa.Builtin); ok && b.Name() == "copy" && render(cc.Call.Args[1]) == seed {
+								return true
+							}
+						}
+						return false
+					}
+					for _, ref := range *ms.Referrers() {
+						if isCopy(ref) {
+							good = true
+						}
+						// copy(secret[:len(seed)], seed): the same bytes at the same place
+						if sl, ok := ref.(*ssa.Slice); ok && sl.Low == nil && sl.High != nil && render(sl.High) == "len("+seed+")" {
+							for _, r2 := range *sl.Referrers() {
+								if isCopy(r2) {
+									good = true
+								}
+							}
+						}
+					}
+				}
+			}
+			if !good {
+				// any other way of building `seed ‖ 0x00` in a fresh buffer (appends onto an empty make, or copies into a
+				// make of len(seed)+1), possibly inside a helper
+				sv := secret
+				for i := 0; i < 3; i++ {
+					if hv := helperValue(sv); hv != nil {
+						sv = hv
+						continue
+					}
+					break
+				}
+				if lay, ok := bufLayout(sv); ok && len(lay.pieces) >= 1 {
+					first := lay.pieces[0]
+					if up := enteringArgName(sv, first); up != "" {
+						first = up
+					}
+					switch {
+					case len(lay.pieces) == 1 && lay.pad != nil:
+						if k, isC := constOf(lay.pad); isC {
+							if n1, _ := constInt64(k.Value); n1 == 1 && first == seed {
 								good = true
 							}
 						}
+					case len(lay.pieces) == 2 && lay.pad == nil && first == seed && lay.zeroTail == 1:
+						good = true
 					}
 				}
 			}
@@ -375,6 +422,27 @@ func ruleC12(w *World) {
 					for _, f := range fs {
 						if strings.HasPrefix(f.Expr, "mapToFr(") && strings.HasSuffix(f.Expr, "== false") {
 							okk = true
+						}
+						// `for isZero := true; isZero; { isZero = mapToFr(…) }`: the loop variable is false after the loop, it
+						// starts as the constant true, so its value is that of the last mapToFr
+						if f.If != nil && strings.HasSuffix(f.Expr, " == false") {
+							if ph, isPhi := stripConv(f.If.Cond).(*ssa.Phi); isPhi && strings.HasPrefix(f.Expr, render(ph)+" ") {
+								all, saw := true, false
+								for _, e := range ph.Edges {
+									if k, isC := e.(*ssa.Const); isC {
+										if k.Value == nil || k.Value.String() != "true" {
+											all = false
+										}
+									} else if cc, isCall := e.(*ssa.Call); isCall && cc.Call.StaticCallee() != nil && cc.Call.StaticCallee().Name() == "mapToFr" {
+										saw = true
+									} else {
+										all = false
+									}
+								}
+								if all && saw {
+									okk = true
+								}
+							}
 						}
 					}
 					w.check(okk, "C12.R3", fnKey(bg)+"/non-zero", r.Pos(), "key returned only when the scalar is non-zero", "a zero private key can be returned", factStrings(fs)...)
@@ -538,20 +606,64 @@ func ruleC13(w *World) {
 			want := []string{"Reset@" + s + "()", "write@" + s + "(" + data + ")", "sum@" + s + "()"}
 			want2 := []string{"Reset@" + s + "()", "write@" + s + "(" + data + ")", "SumHash@" + s + "()"}
 			g := strings.Join(got, ";")
+			// the absorb step is the unexported worker or the exported Write that wraps / contains it
+			g = strings.Replace(g, ";Write@"+s+"(", ";write@"+s+"(", 1)
 			w.check(g == strings.Join(want, ";") || g == strings.Join(want2, ";"), "C13.R2", fnKey(f)+"/sequence", f.Pos(), "Reset→write(data)→sum", "sponge ComputeHash sequence is "+strings.Join(got, " ; "))
 		}
 		if f := w.method(spongeT, "Reset"); f != nil {
 			// clears all 25 lanes and empties the buffer
 			s := P(f, 0)
+			// on every path: a return of Reset that the clearing code does not dominate leaves a used sponge as it
+			// was (for a loop over the lanes the loop's entry, the immediate dominator of its body, stands for it)
 			okBuf, okLanes := false, false
-			for _, c := range methodCalls(f) {
-				if c.name == "setBuf" && strings.Join(c.args, ",") == "0,0" {
-					okBuf = true
+			inLoop := func(b *ssa.BasicBlock) bool {
+				seen := map[*ssa.BasicBlock]bool{}
+				var walk func(x *ssa.BasicBlock) bool
+				walk = func(x *ssa.BasicBlock) bool {
+					for _, y := range x.Succs {
+						if y == b {
+							return true
+						}
+						if !seen[y] {
+							seen[y] = true
+							if walk(y) {
+								return true
+							}
+						}
+					}
+					return false
 				}
+				return walk(b)
+			}
+			everyReturn := func(b *ssa.BasicBlock) bool {
+				if inLoop(b) && b.Idom() != nil {
+					b = b.Idom()
+				}
+				for _, r := range returns(f) {
+					if !b.Dominates(r.Block()) {
+						return false
+					}
+				}
+				return true
 			}
 			instrs(f, func(ins ssa.Instruction) {
+				if c, ok := ins.(*ssa.Call); ok && c.Call.StaticCallee() != nil && c.Call.StaticCallee().Name() == "setBuf" && len(c.Call.Args) == 3 &&
+					render(c.Call.Args[1]) == "0" && render(c.Call.Args[2]) == "0" {
+					okBuf = okBuf || everyReturn(c.Block())
+				}
 				if st, ok := ins.(*ssa.Store); ok && strings.HasPrefix(render(st.Addr), "&"+s+".a[") && render(st.Val) == "0" {
-					okLanes = true
+					okLanes = okLanes || everyReturn(st.Block())
+				}
+				// `d.a = [25]uint64{}`: the whole lane array replaced by its zero value
+				if st, ok := ins.(*ssa.Store); ok && render(st.Addr) == "&"+s+".a" {
+					if k, isC := st.Val.(*ssa.Const); isC && k.Value == nil {
+						okLanes = okLanes || everyReturn(st.Block())
+					}
+				}
+				if c, ok := ins.(*ssa.Call); ok {
+					if b, ok := c.Call.Value.(*ssa.Builtin); ok && b.Name() == "clear" && len(c.Call.Args) == 1 && strings.HasPrefix(render(c.Call.Args[0]), s+".a[:]") {
+						okLanes = okLanes || everyReturn(c.Block())
+					}
 				}
 			})
 			w.check(okBuf && okLanes, "C13.R2", fnKey(f)+"/clears", f.Pos(), "Reset zeroes the state lanes and empties the buffer", "sponge Reset does not zero the lanes and empty the buffer")
@@ -569,7 +681,7 @@ func ruleC13(w *World) {
 				got = append(got, c.name)
 			}
 			okk := strings.Join(got, ";") == "padAndPermute"
-			cps := callsTo(f, "copyOut")
+			cps := callsTo(f, w.spongeRole("copyOut"))
 			w.check(okk && len(cps) == 1 && instrDominates(callsTo(f, "padAndPermute")[0].(ssa.Instruction), cps[0].(ssa.Instruction)), "C13.R2", fnKey(f)+"/sequence", f.Pos(), "sum = pad+permute, then copy out", "sponge sum does not pad/permute before copying the digest out")
 		}
 	}
@@ -603,12 +715,25 @@ func ruleC13(w *World) {
 func (w *World) ruleSpongeBuffer(rule string, spongeT *types.Named) {
 	wr := w.method(spongeT, "write")
 	if wr == nil {
+		// by role: the absorb worker is the method of the sponge that both buffers (appendBuf) and absorbs whole blocks
+		// (the lane xor) — whatever it is called after the exported/unexported pair was merged
+		for _, f := range w.srcFuncs(hashPath) {
+			if f.Signature.Recv() == nil || !types.Identical(deref(f.Signature.Recv().Type()), spongeT) || f.Name() == "padAndPermute" {
+				continue
+			}
+			if len(callsTo(f, "appendBuf")) > 0 && len(callsTo(f, w.spongeRole("xorIn"))) > 0 {
+				wr = f
+			}
+		}
+	}
+	if wr == nil {
 		w.undecided(rule, "anchor:write", token.NoPos, "unresolved anchor: sponge write")
 		return
 	}
 	d := P(wr, 0)
 	full := "(" + d + ".bufSize == " + d + ".rate)"
-	isCheck := func(b *ssa.BasicBlock) bool {
+	var isCheck func(b *ssa.BasicBlock) bool
+	isCheck = func(b *ssa.BasicBlock) bool {
 		ifi, ok := b.Instrs[len(b.Instrs)-1].(*ssa.If)
 		if !ok || render(ifi.Cond) != full {
 			return false
@@ -626,8 +751,53 @@ func (w *World) ruleSpongeBuffer(rule string, spongeT *types.Named) {
 		w.undecided(rule, fnKey(wr)+"/appendBuf", wr.Pos(), "buffered absorb path not recognised")
 		return
 	}
+	// the same discipline for every other place that appends to the partial block (an exported Write that copies
+	// short inputs itself, a helper): only the padding, which permutes unconditionally, is exempt. An append that a
+	// dominating guard keeps strictly below the *rate* (not the storage size, which is the largest rate) cannot fill
+	// the block and needs no test.
+	type appSite struct {
+		fn *ssa.Function
+		c  ssa.CallInstruction
+	}
+	var sites []appSite
 	for _, a := range apps {
+		sites = append(sites, appSite{wr, a})
+	}
+	inWr := map[ssa.Instruction]bool{}
+	for _, a := range apps {
+		inWr[a.(ssa.Instruction)] = true
+	}
+	for _, f := range w.srcFuncs(hashPath) {
+		if f == wr || isTestFile(w, f.Pos()) || f.Name() == "appendBuf" {
+			continue
+		}
+		if f.Signature.Recv() == nil || !types.Identical(deref(f.Signature.Recv().Type()), spongeT) {
+			continue
+		}
+		for _, a := range callsTo(f, "appendBuf") {
+			if !inWr[a.(ssa.Instruction)] && a.Parent() == f {
+				sites = append(sites, appSite{f, a})
+			}
+		}
+	}
+	for _, sa := range sites {
+		a := sa.c
 		ai := a.(ssa.Instruction)
+		if sa.fn != wr {
+			dd := P(sa.fn, 0)
+			arg := render(a.Common().Args[len(a.Common().Args)-1])
+			fs := w.factsAt(ai)
+			if hasFact(fs, "len("+arg+") < ("+dd+".rate - "+dd+".bufSize)") || hasFact(fs, "(len("+arg+") + "+dd+".bufSize) < "+dd+".rate") {
+				w.ok(rule, fnKey(sa.fn)+"/append-below-rate", ai.Pos(), "append guarded strictly below the rate")
+				continue
+			}
+			full = "(" + dd + ".bufSize == " + dd + ".rate)"
+		} else {
+			full = "(" + d + ".bufSize == " + d + ".rate)"
+		}
+		wr0 := wr
+		depthRet := 0
+		wr := sa.fn
 		// forward search from the append: reaching a return or another absorb step before the full-buffer test is a violation
 		bad := ""
 		seen := map[*ssa.BasicBlock]bool{}
@@ -639,10 +809,50 @@ func (w *World) ruleSpongeBuffer(rule string, spongeT *types.Named) {
 			for i := from; i < len(b.Instrs); i++ {
 				switch x := b.Instrs[i].(type) {
 				case *ssa.Return:
+					// an unexported part of the padding / absorbing code: what its callers do right after the call counts
+					if pf := b.Parent(); depthRet < 1 && pf.Object() != nil && !pf.Object().Exported() && pf != wr0 {
+						callers := w.callersOfCached(pf)
+						n := 0
+						for _, cs := range callers {
+							if isTestFile(w, cs.Pos()) {
+								continue
+							}
+							n++
+							depthRet++
+							savedFull := full
+							cd := P(cs.Parent(), 0)
+							full = "(" + cd + ".bufSize == " + cd + ".rate)"
+							walk(cs.Block(), instrIndex(cs)+1)
+							full = savedFull
+							depthRet--
+						}
+						if n > 0 {
+							return
+						}
+					}
 					bad = "write can return right after appending to the buffer without testing whether it is full (at " + w.pos(posOf(x)) + ")"
 					return
 				case *ssa.Call:
-					if c := x.Call.StaticCallee(); c != nil && (c.Name() == "appendBuf" || c.Name() == "xorIn") && ssa.Instruction(x) != ai {
+					// the test moved into a helper `if bufSize == rate { permute }` called right here
+					if h := x.Call.StaticCallee(); h != nil && inModule(h) && h.Blocks != nil && h.Signature.Recv() != nil && len(h.Params) == 1 && len(h.Blocks) >= 2 {
+						hd := P(h, 0)
+						if ifi, ok := h.Blocks[0].Instrs[len(h.Blocks[0].Instrs)-1].(*ssa.If); ok && render(ifi.Cond) == "("+hd+".bufSize == "+hd+".rate)" {
+							perm := false
+							for _, ins := range h.Blocks[0].Succs[0].Instrs {
+								if c, ok := ins.(*ssa.Call); ok && c.Call.StaticCallee() != nil && c.Call.StaticCallee().Name() == "permute" {
+									perm = true
+								}
+							}
+							if perm {
+								return
+							}
+						}
+					}
+					// an unconditional permute on the way (the padding): the block is absorbed and the buffer emptied
+					if c := x.Call.StaticCallee(); c != nil && c.Name() == "permute" {
+						return
+					}
+					if c := x.Call.StaticCallee(); c != nil && (c.Name() == "appendBuf" || c.Name() == w.spongeRole("xorIn")) && ssa.Instruction(x) != ai {
 						bad = "another absorb step (" + c.Name() + ") can follow an append without the buffer-full test in between"
 						return
 					}
@@ -662,7 +872,7 @@ func (w *World) ruleSpongeBuffer(rule string, spongeT *types.Named) {
 		w.check(bad == "", rule, fnKey(wr)+"/full-buffer-test-after-append", ai.Pos(), "every append is followed by the buffer-full ⇒ permute test before write returns or absorbs again", bad+": a later SumHash pads a full buffer (digest wrong for inputs that end exactly on a block boundary after a split write)")
 	}
 	// the fast path absorbs whole blocks only when the buffer is empty
-	for _, x := range callsTo(wr, "xorIn") {
+	for _, x := range callsTo(wr, w.spongeRole("xorIn")) {
 		fs := w.factsAt(x.(ssa.Instruction))
 		w.check(hasFact(fs, d+".bufSize == 0") && hasFact(fs, "len("+render(sliceBase(x.Common().Args[1]))+") >= "+d+".rate") || hasFactPrefixSuffix(fs, d+".bufSize == 0"), rule, fnKey(wr)+"/fast-path-empty-buffer", x.Pos(), "whole blocks are absorbed directly only when nothing is buffered", "the fast path absorbs input while bytes are still buffered (order of absorbed bytes changes)", factStrings(fs)...)
 	}
@@ -681,7 +891,110 @@ func (w *World) ruleSpongeBuffer(rule string, spongeT *types.Named) {
 			}
 		})
 		w.check(okk && xor, rule, fnKey(pp)+"/padding-shape", pp.Pos(), "pad10*1: domain byte appended, last rate byte ^= 0x80, then permute", "padding sequence changed: calls "+s2+fmt.Sprintf(", final-bit xor at rate-1 present=%v", xor))
+		// zero fill: every byte from the buffered length (after the domain byte) up to the rate is cleared — the block
+		// buffer keeps bytes of earlier, longer inputs (Reset and permute do not wipe it), so a gap makes the digest depend
+		// on the hasher's history.  Recognised: a byte loop `for i := bufSize; i < rate; i++ { buf[i] = 0 }` or
+		// `clear(x[bufSize:rate])`, written in place or in a helper.
+		recv := P(pp, 0)
+		from, to := recv+".bufSize", recv+".rate"
+		covered, seen := false, []string{}
+		instrs(pp, func(ins ssa.Instruction) {
+			switch x := ins.(type) {
+			case *ssa.Call:
+				if b, ok := x.Call.Value.(*ssa.Builtin); ok && b.Name() == "clear" && len(x.Call.Args) == 1 {
+					if sl, ok := stripConv(x.Call.Args[0]).(*ssa.Slice); ok && sl.Low != nil && sl.High != nil {
+						lo, hi := render(sl.Low), render(sl.High)
+						seen = append(seen, "clear["+lo+":"+hi+"]")
+						if lo == from && hi == to {
+							if eb := elemBytes(sl.X.Type()); eb == 1 {
+								covered = true
+							}
+						}
+					}
+				}
+			case *ssa.Store:
+				k, isC := constOf(x.Val)
+				if !isC || k.Value == nil || k.Value.String() != "0" {
+					return
+				}
+				ia, ok := x.Addr.(*ssa.IndexAddr)
+				if !ok || elemBytes(ia.X.Type()) != 1 {
+					if ok {
+						seen = append(seen, "store 0 to "+render(x.Addr)+" (not a byte)")
+					}
+					return
+				}
+				// `for i := range b[from:to] { b[from:to][i] = 0 }` / a view b' := b[from:to] cleared entirely
+				if sl, isSl := stripConv(ia.X).(*ssa.Slice); isSl && sl.Low != nil && sl.High != nil && render(sl.Low) == from && render(sl.High) == to {
+					ixa := affineOf(ia.Index)
+					if iph, isPhi := ixa.base.(*ssa.Phi); isPhi {
+						if first, lbase, loff, okS := inductionSpan(iph); okS && first+ixa.c == 0 && loff+ixa.c == -1 && lenCallOf(lbase, ia.X) {
+							seen = append(seen, "range over ["+from+":"+to+"]")
+							covered = true
+							return
+						}
+					}
+				}
+				ph, ok := stripConv(ia.Index).(*ssa.Phi)
+				if !ok || len(ph.Edges) != 2 {
+					seen = append(seen, "store 0 to "+render(x.Addr))
+					return
+				}
+				var start ssa.Value
+				step := false
+				for _, e := range ph.Edges {
+					if a := affineOf(e); a.base == ssa.Value(ph) && a.c == 1 {
+						step = true
+					} else {
+						start = e
+					}
+				}
+				hdr := ph.Block()
+				ifi, isIf := hdr.Instrs[len(hdr.Instrs)-1].(*ssa.If)
+				if start == nil || !step || !isIf {
+					return
+				}
+				bo, isB := stripConv(ifi.Cond).(*ssa.BinOp)
+				if !isB || bo.Op != token.LSS || stripConv(bo.X) != ssa.Value(ph) {
+					seen = append(seen, "loop with condition "+render(ifi.Cond))
+					return
+				}
+				lo, hi := render(start), render(bo.Y)
+				seen = append(seen, "loop["+lo+":"+hi+"]")
+				if lo == from && hi == to {
+					covered = true
+				}
+			}
+		})
+		w.check(covered, rule, fnKey(pp)+"/zero-fill", pp.Pos(), "bytes bufSize..rate-1 of the block are cleared before the final bit is set",
+			"the zero fill of the padding is not recognised as covering every byte from "+from+" to "+to+" (found: "+strings.Join(seen, "; ")+"): stale bytes of an earlier, longer input can be absorbed with the padding")
 	}
+}
+
+// elemBytes: size in bytes of the elements of an array / slice / pointer-to-array type (0 if unknown)
+func elemBytes(t types.Type) int64 {
+	var el types.Type
+	switch x := deref(t).Underlying().(type) {
+	case *types.Array:
+		el = x.Elem()
+	case *types.Slice:
+		el = x.Elem()
+	default:
+		return 0
+	}
+	if b, ok := el.Underlying().(*types.Basic); ok {
+		switch b.Kind() {
+		case types.Uint8, types.Int8:
+			return 1
+		case types.Uint16, types.Int16:
+			return 2
+		case types.Uint32, types.Int32:
+			return 4
+		case types.Uint64, types.Int64:
+			return 8
+		}
+	}
+	return 0
 }
 
 func hasFactPrefixSuffix(fs []Fact, want string) bool {
@@ -981,11 +1294,11 @@ func (w *World) ruleKmacInitBlock(rule string) {
 		case ssa.CallInstruction:
 			if x.Common().IsInvoke() && x.Common().Method.Name() == "Write" {
 				a := render(x.Common().Args[0])
-				if strings.HasSuffix(a, ".initBlock") {
-					written = true
+				if strings.HasSuffix(a, ".initBlock") || a == want {
+					written = true // the stored block, or the very value that is stored
 				}
 			} else if f := x.Common().StaticCallee(); f != nil && f.Name() == "Write" && len(x.Common().Args) > 1 {
-				if strings.HasSuffix(render(x.Common().Args[1]), ".initBlock") {
+				if a := render(x.Common().Args[1]); strings.HasSuffix(a, ".initBlock") || a == want {
 					written = true
 				}
 			}
@@ -1040,6 +1353,7 @@ type bufLay struct {
 	content []string  // canonical length terms of the pieces: len(<piece>)
 	pad     ssa.Value // number of trailing zero bytes (nil: none)
 	body    ssa.Value // append form: the slice value holding the content before the padding
+	zeroTail int      // append form: the last piece is a literal of that many zero bytes (append(b, 0))
 }
 
 func lenTerms(v ssa.Value, copies map[*ssa.Call]string, out *[]string, rest *[]ssa.Value) {
@@ -1119,6 +1433,9 @@ func bufLayout(v ssa.Value) (bufLay, bool) {
 			}
 			lay.pieces = append(lay.pieces, render(arg))
 			lay.content = append(lay.content, "len("+render(arg)+")")
+			if i == len(chain)-1 {
+				lay.zeroTail = zeroLiteralLen(arg)
+			}
 		}
 		return lay, true
 	}
@@ -1290,6 +1607,19 @@ func ruleC14(w *World) {
 			var buf ssa.Value
 			bad := ""
 			bounds := func(v ssa.Value, at ssa.Instruction) (ssa.Value, int64, int64, bool) {
+				// a destination that is the parameter of a small writer helper (`putCounter(dst, v)`): what the caller passed
+				for k := 0; k < 2; k++ {
+					if hp, isP := stripConv(v).(*ssa.Parameter); isP && hp.Parent() != sf {
+						if up := enteringArg(hp); up != nil {
+							v = up
+							if ci, ok := enteredBy[hp.Parent()]; ok && ci != nil {
+								at = ci
+							}
+							continue
+						}
+					}
+					break
+				}
 				sl, ok := stripConv(v).(*ssa.Slice)
 				if !ok {
 					// the whole buffer
@@ -1563,12 +1893,11 @@ func ruleC14(w *World) {
 	if rd := w.method(coreT, "Read"); rd != nil {
 		c, buf := P(rd, 0), P(rd, 1)
 		xk := callsTo(rd, "XORKeyStream")
-		if len(xk) != 1 {
-			w.viol("C14.R3", fnKey(rd)+"/xor", rd.Pos(), fmt.Sprintf("expected exactly one XORKeyStream call, found %d", len(xk)))
+		if len(xk) == 0 {
+			w.viol("C14.R3", fnKey(rd)+"/xor", rd.Pos(), "no XORKeyStream call below Read")
 			return
 		}
-		x := xk[0]
-		// every return is reached through the XOR and the counter update
+		// every return is reached through exactly one keystream XOR (in Read itself or in a per-path helper) and the counter update
 		var upd *ssa.Store
 		instrs(rd, func(ins ssa.Instruction) {
 			if s, ok := ins.(*ssa.Store); ok {
@@ -1577,30 +1906,132 @@ func ruleC14(w *World) {
 				}
 			}
 		})
-		okk := upd != nil && render(upd.Val) == fmt.Sprintf("(%s.bytesCounter + len(%s))", c, buf)
+		okk := upd != nil && (render(upd.Val) == fmt.Sprintf("(%s.bytesCounter + len(%s))", c, buf))
 		w.check(okk, "C14.R3", fnKey(rd)+"/counter-update", rd.Pos(), "byte counter += len(buffer)", "byte counter update is missing or not += len(buffer)")
-		for _, r := range returns(rd) {
-			d1 := instrDominates(x.(ssa.Instruction), r)
-			d2 := upd != nil && instrDominates(upd, r)
-			w.check(d1 && d2, "C14.R3", fnKey(rd)+"/every-path", r.Pos(), "every path XORs once and updates the counter", "a path through Read returns without the keystream XOR or without updating the byte counter")
+		xorBlocks := map[*ssa.BasicBlock]int{}
+		for _, x := range xk {
+			xorBlocks[liftTo(x.(ssa.Instruction), rd).Block()]++
 		}
-		w.check(render(x.Common().Args[1]) == buf, "C14.R3", fnKey(rd)+"/dst", x.Pos(), "keystream written into the caller's buffer", "XORKeyStream destination is "+render(x.Common().Args[1]))
-		// message operand: phi of emptyMessage[:len(buf)] (≤ 64) and buffer after zeroing loop
-		msg := x.Common().Args[2]
-		ph, isPhi := msg.(*ssa.Phi)
-		if !isPhi {
-			w.viol("C14.R3", fnKey(rd)+"/message", x.Pos(), "message operand shape not recognised: "+render(msg))
-		} else {
-			lenEmpty, _ := w.constInt(randomPath, "lenEmptyMessage")
-			for i, e := range ph.Edges {
+		for _, r := range returns(rd) {
+			// no path from the entry to this return avoids every XOR block; and no block holds two
+			seen := map[*ssa.BasicBlock]bool{}
+			var reach func(b *ssa.BasicBlock) bool
+			reach = func(b *ssa.BasicBlock) bool {
+				if seen[b] || xorBlocks[b] > 0 {
+					return false
+				}
+				seen[b] = true
+				if b == r.Block() {
+					return true
+				}
+				for _, sc := range b.Succs {
+					if reach(sc) {
+						return true
+					}
+				}
+				return false
+			}
+			d1 := !reach(rd.Blocks[0])
+			for b, n := range xorBlocks {
+				if n > 1 {
+					d1 = false
+				}
+				// two XOR blocks on one path
+				for b2 := range xorBlocks {
+					if b != b2 && w.info4(rd).reachable(b, b2) {
+						d1 = false
+					}
+				}
+			}
+			d2 := upd != nil && instrDominates(upd, r)
+			w.check(d1 && d2, "C14.R3", fnKey(rd)+"/every-path", r.Pos(), "every path XORs once and updates the counter", "a path through Read returns without the keystream XOR (or with two) or without updating the byte counter")
+		}
+		lenEmpty, _ := w.constInt(randomPath, "lenEmptyMessage")
+		for xi, x := range xk {
+			xfn := x.Parent()
+			bufHere := buf
+			if xfn != rd {
+				bufHere = "" // the helper's own name for the buffer: whatever it passes as destination
+			}
+			dst := render(x.Common().Args[1])
+			w.check(dst == buf || xfn != rd && enteringArgIs(x.Common().Args[1], rd.Params[1]), "C14.R3", fnKey(rd)+"/dst", x.Pos(), "keystream written into the caller's buffer", "XORKeyStream destination is "+dst)
+			if bufHere == "" {
+				bufHere = dst
+			}
+			msg := x.Common().Args[2]
+			var cands []ssa.Value
+			var preds []*ssa.BasicBlock
+			var ats []ssa.Instruction
+			if ph, isPhi := msg.(*ssa.Phi); isPhi {
+				for i, e := range ph.Edges {
+					cands = append(cands, e)
+					preds = append(preds, ph.Block().Preds[i])
+					ats = append(ats, nil)
+				}
+			} else {
+				cands = append(cands, msg)
+				preds = append(preds, nil)
+				ats = append(ats, nil)
+			}
+			// a message chosen by a helper (`message := c.zeroMessage(buffer)`): one candidate per way out of the helper,
+			// judged where it is produced
+			for i := 0; i < len(cands); i++ {
+				hc, isCall := cands[i].(*ssa.Call)
+				if !isCall || helperCallee(hc) == nil {
+					continue
+				}
+				h := helperCallee(hc)
+				bindHelper(hc)
+				if in := helperValue(cands[i]); in != nil {
+					cands[i] = in
+					continue
+				}
+				var rs []*ssa.Return
+				for _, r := range returns(h) {
+					if r.Parent() == h && len(r.Results) == 1 {
+						rs = append(rs, r)
+					}
+				}
+				if len(rs) < 2 {
+					continue
+				}
+				cands[i], ats[i] = rs[0].Results[0], rs[0]
+				for _, r := range rs[1:] {
+					cands = append(cands, r.Results[0])
+					preds = append(preds, nil)
+					ats = append(ats, r)
+				}
+			}
+			xfn0, bufHere0 := xfn, bufHere
+			for i, e := range cands {
+				xfn, bufHere := xfn0, bufHere0
 				s := strings.ReplaceAll(render(e), "[:][:", "[:") // x[:][:n] is x[:n]
-				pred := ph.Block().Preds[i]
-				last := pred.Instrs[len(pred.Instrs)-1]
-				fs := w.factsAt(last)
-				zg := zeroGlobalOf(e, buf)
+				var at ssa.Instruction = x.(ssa.Instruction)
+				if preds[i] != nil {
+					at = preds[i].Instrs[len(preds[i].Instrs)-1]
+				}
+				if ats[i] != nil {
+					// inside the helper: its own name for the buffer is the parameter the caller's buffer enters through
+					at = ats[i]
+					xfn = at.Parent()
+					for _, hp := range xfn.Params {
+						if enteringArgIs(hp, rd.Params[1]) {
+							bufHere = hp.Name()
+						}
+					}
+				}
+				fs := w.factsAt(at)
+				zg := zeroGlobalOf(e, bufHere)
+				if zg == nil && bufHere != buf {
+					zg = zeroGlobalOf(e, buf)
+				}
+				key := fnKey(rd)
+				if len(xk) > 1 {
+					key = fmt.Sprintf("%s#%d", key, xi+1)
+				}
 				if zg != nil {
 					// the zero message as a package-level array shared by all generators: long enough, and never written anywhere
-					w.check(hasFact(fs, fmt.Sprintf("len(%s) <= %d", buf, lenEmpty)), "C14.R3", fnKey(rd)+"/message:zero-array", x.Pos(), "zero array used only when it is long enough", "the zero message is sliced beyond its length", factStrings(fs)...)
+					w.check(hasFact(fs, fmt.Sprintf("len(%s) <= %d", buf, lenEmpty)) || hasFact(fs, fmt.Sprintf("len(%s) <= %d", bufHere, lenEmpty)), "C14.R3", key+"/message:zero-array", x.Pos(), "zero array used only when it is long enough", "the zero message is sliced beyond its length", factStrings(fs)...)
 					written := ""
 					for _, f := range w.moduleFuncs() {
 						if isTestFile(w, f.Pos()) || f.Blocks == nil {
@@ -1612,63 +2043,100 @@ func ruleC14(w *World) {
 							}
 							if cc, ok := ins.(ssa.CallInstruction); ok {
 								for j, a := range cc.Common().Args {
-									if rootGlobalOf(a) != zg {
-										continue
+									if rootGlobalOf(a) == zg && writesArg(cc.Common(), j) {
+										written = "written by a call in " + fnKey(f)
 									}
-									if b, isB := cc.Common().Value.(*ssa.Builtin); isB && (b.Name() == "len" || b.Name() == "cap") {
-										continue
-									}
-									callee := cc.Common().StaticCallee()
-									if callee != nil && callee.Name() == "XORKeyStream" && j == 2 {
-										continue // source operand of the cipher: read only
-									}
-									if b, isB := cc.Common().Value.(*ssa.Builtin); isB && b.Name() == "copy" && j == 1 {
-										continue
-									}
-									written = fmt.Sprintf("handed to %s as argument %d in %s (%s)", render(cc.Common().Value), j, fnKey(f), w.pos(ins.Pos()))
 								}
 							}
 						})
 					}
-					w.check(written == "", "C14.R3", fnKey(rd)+"/message:zero-array-never-written", rd.Pos(), "the shared zero message array is never written", "the zero message array `"+zg.Name()+"` is "+written+": keystream bytes land in the message every generator encrypts, so later reads are not the RFC 8439 keystream")
-				} else if s == fmt.Sprintf("%s.emptyMessage[:len(%s)]", c, buf) {
-					w.check(hasFact(fs, fmt.Sprintf("len(%s) <= %d", buf, lenEmpty)), "C14.R3", fnKey(rd)+"/message:zero-array", x.Pos(), "zero array used only when it is long enough", "the zero message is sliced beyond its length", factStrings(fs)...)
-					// never written
+					w.check(written == "", "C14.R3", key+"/message:zero-array-never-written", rd.Pos(), "the zero message array is never written", "the zero message array is written somewhere (keystream would be XORed with non-zero bytes): "+written)
+				} else if zf := zeroFieldSlice(e); zf != nil {
+					// the zero message kept in a field of the core: sliced to the buffer's length, long enough, never written
+					sl := stripConv(e).(*ssa.Slice)
+					hi := ""
+					if sl.High != nil {
+						hi = render(sl.High)
+						if hp, isP := sl.High.(*ssa.Parameter); isP && hp.Parent() != rd {
+							if up := enteringArg(hp); up != nil {
+								hi = render(up) // the length the helper was asked for
+							}
+						}
+					}
+					w.check(hi == "len("+bufHere+")" || hi == "len("+buf+")", "C14.R3", key+"/message:zero-array-length", x.Pos(), "the zero message has the buffer's length", "the zero message is sliced to `"+hi+"`, not to the buffer's length")
+					w.check(hasFact(fs, fmt.Sprintf("len(%s) <= %d", buf, lenEmpty)) || hasFact(fs, fmt.Sprintf("len(%s) <= %d", bufHere, lenEmpty)), "C14.R3", key+"/message:zero-array", x.Pos(), "zero array used only when it is long enough", "the zero message is sliced beyond its length", factStrings(fs)...)
 					written := false
 					for _, f := range w.srcFuncs(randomPath) {
-						instrs(f, func(ins ssa.Instruction) {
+						instrsFlat(f, func(ins ssa.Instruction) {
 							if st, ok := ins.(*ssa.Store); ok {
-								if fld := rootField(st.Addr); fld != nil && fld.Name() == "emptyMessage" {
+								if fld := rootField(st.Addr); fld == zf {
 									written = true
 								}
 							}
-							if cc, ok := ins.(ssa.CallInstruction); ok && cc != x {
+							if cc, ok := ins.(ssa.CallInstruction); ok {
 								for j, a := range cc.Common().Args {
-									if fld := rootField(sliceAddr(a)); fld != nil && fld.Name() == "emptyMessage" && !(cc == x && j == 2) {
-										if b, isB := cc.Common().Value.(*ssa.Builtin); !isB || b.Name() != "len" {
-											written = true
-										}
+									if fld := rootField(sliceAddr(a)); fld == zf && writesArg(cc.Common(), j) {
+										written = true
 									}
 								}
 							}
 						})
 					}
-					w.check(!written, "C14.R3", fnKey(rd)+"/message:zero-array-never-written", rd.Pos(), "the zero message array is never written", "the zero message array is written somewhere (keystream would be XORed with non-zero bytes)")
-				} else if s == buf {
-					// zeroing loop over the whole buffer dominates
+					w.check(!written, "C14.R3", key+"/message:zero-array-never-written", rd.Pos(), "the zero message array is never written", "the zero message array is written somewhere (keystream would be XORed with non-zero bytes)")
+				} else if s == bufHere || s == buf {
+					// the buffer is cleared (loop of zero stores, or clear) before it is used as its own message
 					zero := false
-					instrs(rd, func(ins ssa.Instruction) {
-						if st, ok := ins.(*ssa.Store); ok && strings.HasPrefix(render(st.Addr), "&"+buf+"[") && render(st.Val) == "0" {
+					instrsFlat(xfn, func(ins ssa.Instruction) {
+						if st, ok := ins.(*ssa.Store); ok && strings.HasPrefix(render(st.Addr), "&"+bufHere+"[") && render(st.Val) == "0" {
 							zero = true
 						}
+						if cl, ok := ins.(*ssa.Call); ok {
+							if b, ok := cl.Call.Value.(*ssa.Builtin); ok && b.Name() == "clear" && len(cl.Call.Args) == 1 && render(cl.Call.Args[0]) == bufHere && instrDominatesFlat(cl, at) {
+								zero = true
+							}
+						}
 					})
-					w.check(zero, "C14.R3", fnKey(rd)+"/message:zeroed-buffer", x.Pos(), "large buffers are zeroed before being used as the message", "buffer used as its own message without being zeroed")
+					w.check(zero, "C14.R3", key+"/message:zeroed-buffer", x.Pos(), "large buffers are zeroed before being used as the message", "buffer used as its own message without being zeroed")
 				} else {
-					w.viol("C14.R3", fnKey(rd)+"/message", x.Pos(), "unexpected message operand "+s)
+					w.viol("C14.R3", key+"/message", x.Pos(), "unexpected message operand "+s)
 				}
 			}
 		}
 	}
+}
+
+// enteringArgIs: v, a value of a helper, is the helper's parameter that the caller binds to p
+func enteringArgIs(v ssa.Value, p *ssa.Parameter) bool {
+	for i := 0; i < 3; i++ {
+		if v == ssa.Value(p) {
+			return true
+		}
+		up := enteringArg(stripConv(v))
+		if up == nil {
+			return false
+		}
+		v = stripConv(up)
+	}
+	return v == ssa.Value(p)
+}
+
+// writesArg: conservative — a call may write through a slice / pointer argument unless it is a known reader
+func writesArg(c *ssa.CallCommon, j int) bool {
+	if b, ok := c.Value.(*ssa.Builtin); ok {
+		switch b.Name() {
+		case "len", "cap":
+			return false
+		case "copy", "clear":
+			return j == 0
+		case "append":
+			return false
+		}
+	}
+	if f := c.StaticCallee(); f != nil && f.Name() == "XORKeyStream" {
+		// (*Cipher).XORKeyStream(dst, src): args are (receiver, dst, src); only dst is written
+		return j != 2
+	}
+	return true
 }
 
 func sliceAddr(v ssa.Value) ssa.Value {
@@ -1684,6 +2152,22 @@ func ruleC15(w *World) {
 	w.floor("C15.R1", 4)
 	w.floor("C15.R2", 4)
 	w.floor("C15.R3", 4)
+	// R5: the byte source under the helpers: one keystream XOR of zeros per Read, counted in full (= C14.R3) — the
+	// samples of two generators in the same state are equal only if Read consumes and accounts the same bytes
+	w.floor("C15.R5", 3)
+	{
+		saved := w.out
+		tmp := &Out{Floors: map[string]int{}, Stats: map[string]int{}}
+		w.out = tmp
+		ruleC14(w)
+		w.out = saved
+		for _, o := range tmp.Obligations {
+			if o.Rule == "C14.R3" && o.Key != "floor" {
+				o.Rule = "C15.R5"
+				w.out.Obligations = append(w.out.Obligations, o)
+			}
+		}
+	}
 	var prgT *types.Named
 	if p := w.ByPath[randomPath]; p != nil {
 		if tn, ok := p.Types.Scope().Lookup("genericPRG").(*types.TypeName); ok {
@@ -1803,6 +2287,18 @@ func ruleC15(w *World) {
 					}
 					if len(c.Call.Args) == 2 {
 						a0, a1 := render(c.Call.Args[0]), render(c.Call.Args[1])
+						if c.Parent() != sm {
+							// the swap sits in a function literal of Samples: its parameters are what the (one) call passes
+							var cc *ssa.CallCommon
+							if ci, ok := enteredBy[c.Parent()]; ok && ci != nil {
+								cc = ci.Common()
+							} else if cs := w.callersOfCached(c.Parent()); len(cs) == 1 {
+								cc = cs[0].Common()
+							}
+							if cc != nil {
+								a0, a1 = substParams(a0, c.Parent(), cc), substParams(a1, c.Parent(), cc)
+							}
+						}
 						j := render(us[0].(ssa.Value))
 						if a0 == idx && a1 == "("+idx+" + "+j+")" {
 							sw++
@@ -1881,7 +2377,7 @@ func ruleC15(w *World) {
 		}
 		for _, r := range returns(sp) {
 			if isNilConst(r.Results[1]) {
-				s := render(r.Results[0])
+				s := strings.ReplaceAll(render(r.Results[0]), "[0:", "[:") // x[0:m] is x[:m]
 				okk := s == fmt.Sprintf("%s.Permutation(%s)#0[:%s]", P(sp, 0), nn, m) || (permVal != "" && permVal != "?" && s == permVal+"[:"+m+"]")
 				w.check(okk, "C15.R2", fnKey(sp)+"/prefix", r.Pos(), "first m entries of a full permutation", "SubPermutation returns "+s)
 			}
@@ -2198,4 +2694,184 @@ func rootString(r root) string {
 		return "shared memory (" + r.name + ")"
 	}
 	return "fresh memory"
+}
+
+
+// ruleFreshResult: the byte string a function hands to its caller (result idx) is rooted only in memory allocated during
+// the call — never in the receiver, an argument or a package variable: a later call cannot change a value already returned.
+func (w *World) ruleFreshResult(rule string, f *ssa.Function, idx int, what string) {
+	if f == nil || f.Blocks == nil {
+		w.undecided(rule, "anchor:"+what, token.NoPos, "unresolved anchor: "+what)
+		return
+	}
+	ea := w.effects()
+	bad := ""
+	for _, r := range w.returnsAll(f) {
+		ret := r.ins.(*ssa.Return)
+		if idx >= len(ret.Results) || isNilConst(ret.Results[idx]) {
+			continue
+		}
+		for _, rt := range ea.roots(ret.Results[idx], retParent(ret), 0) {
+			if rt.kind == rkFresh {
+				continue
+			}
+			// a parameter of an inner helper: what the caller passed
+			if rt.kind == rkParam && retParent(ret) != f {
+				if up := enteringArg(retParent(ret).Params[rt.param]); up != nil {
+					allFresh := true
+					for _, r2 := range ea.roots(up, f, 0) {
+						if r2.kind != rkFresh {
+							allFresh = false
+						}
+					}
+					if allFresh {
+						continue
+					}
+				}
+			}
+			if bad == "" {
+				bad = fmt.Sprintf("the %s returned at %s is rooted in %s: a later call on the same object (or another caller) changes a value the caller already holds", what, w.pos(retPos(ret)), rootString(rt))
+			}
+		}
+	}
+	w.check(bad == "", rule, fnKey(f)+"/fresh-result", f.Pos(), "returned "+what+" is freshly allocated", bad)
+}
+
+
+// zeroLiteralLen: v is `lit[:]` of a local array literal all of whose elements are the constant 0 (the variadic tail
+// of append(b, 0, 0)): its length, else 0.
+func zeroLiteralLen(v ssa.Value) int {
+	sl, ok := stripConv(v).(*ssa.Slice)
+	if !ok || sl.Low != nil || sl.High != nil {
+		return 0
+	}
+	al, ok := sl.X.(*ssa.Alloc)
+	if !ok {
+		return 0
+	}
+	arr, ok := deref(al.Type()).Underlying().(*types.Array)
+	if !ok {
+		return 0
+	}
+	n := 0
+	for _, ref := range *al.Referrers() {
+		ia, ok := ref.(*ssa.IndexAddr)
+		if !ok {
+			continue
+		}
+		for _, r2 := range *ia.Referrers() {
+			st, ok := r2.(*ssa.Store)
+			if !ok {
+				continue
+			}
+			k, isC := constOf(st.Val)
+			if !isC || k.Value == nil || k.Value.String() != "0" {
+				return 0
+			}
+			n++
+		}
+	}
+	if int64(n) != arr.Len() {
+		return 0
+	}
+	return n
+}
+
+// enteringArgName: when the layout was found inside a helper, a piece named after the helper's parameter stands for
+// the argument of the call that entered it
+func enteringArgName(v ssa.Value, piece string) string {
+	ins, ok := v.(ssa.Instruction)
+	if !ok || ins.Parent() == nil {
+		return ""
+	}
+	fn := ins.Parent()
+	via, ok := enteredBy[fn]
+	if !ok {
+		cs := gWorld.callersOfCached(fn)
+		if len(cs) != 1 {
+			return ""
+		}
+		via = cs[0]
+	}
+	for i, p := range fn.Params {
+		if p.Name() == piece && i < len(via.Common().Args) {
+			return render(via.Common().Args[i])
+		}
+	}
+	return ""
+}
+
+
+// zeroFieldSlice: v is a slice x.f[:n] of an array field of the generator core; returns the field
+func zeroFieldSlice(v ssa.Value) *types.Var {
+	sl, ok := stripConv(v).(*ssa.Slice)
+	if !ok {
+		return nil
+	}
+	x := sl.X
+	if s2, ok := x.(*ssa.Slice); ok {
+		x = s2.X
+	}
+	fa, ok := x.(*ssa.FieldAddr)
+	if !ok {
+		return nil
+	}
+	if _, isArr := deref(fa.Type()).Underlying().(*types.Array); !isArr {
+		return nil
+	}
+	return addrField(fa)
+}
+
+
+// spongeRole: the name of the sponge's lane helpers, located by what they do rather than by name — among the two-parameter
+// functions of the hash package taking the sponge state and a byte slice, "xorIn" is the one that stores into the 25-lane
+// state array, "copyOut" the one that writes the byte slice.  Falls back to the conventional name.
+func (w *World) spongeRole(role string) string {
+	for _, fn := range w.srcFuncs(hashPath) {
+		if isTestFile(w, fn.Pos()) || fn.Signature.Recv() != nil || len(fn.Params) != 2 {
+			continue
+		}
+		var st, bs *ssa.Parameter
+		for _, p := range fn.Params {
+			if n, ok := deref(p.Type()).(*types.Named); ok && n.Obj().Name() == "spongeState" {
+				st = p
+			}
+			if sl, ok := p.Type().Underlying().(*types.Slice); ok {
+				if b, ok := sl.Elem().Underlying().(*types.Basic); ok && b.Kind() == types.Uint8 {
+					bs = p
+				}
+			}
+		}
+		if st == nil || bs == nil {
+			continue
+		}
+		lanes, bytesW := false, false
+		instrsFlat(fn, func(ins ssa.Instruction) {
+			switch x := ins.(type) {
+			case *ssa.Store:
+				if ia, ok := x.Addr.(*ssa.IndexAddr); ok {
+					if arr, ok := deref(ia.X.Type()).Underlying().(*types.Array); ok && arr.Len() == 25 {
+						lanes = true
+					}
+					if sliceBaseNoHelper(ia.X) == ssa.Value(bs) {
+						bytesW = true
+					}
+				}
+			case *ssa.Call:
+				if b, ok := x.Call.Value.(*ssa.Builtin); ok && b.Name() == "copy" && len(x.Call.Args) == 2 && bufBase(stripConv(x.Call.Args[0])) == ssa.Value(bs) {
+					bytesW = true
+				}
+				if f := x.Call.StaticCallee(); f != nil && f.Name() == "PutUint64" && len(x.Call.Args) >= 2 && bufBase(stripConv(x.Call.Args[1])) == ssa.Value(bs) {
+					bytesW = true
+				}
+			}
+		})
+		if role == "xorIn" && lanes && !bytesW {
+			return fn.Name()
+		}
+		if role == "copyOut" && bytesW && !lanes {
+			return fn.Name()
+		}
+	}
+	return role
 }
